@@ -36,6 +36,7 @@ type c20Spec struct {
 	Names   []string   `json:"names"`
 	HasInc  []bool     `json:"has_inc"`
 	Loaders []string   `json:"loaders"`
+	Shared  bool       `json:"sets_share_one_loader_object"`
 	Disk    *DiskSpec  `json:"disk"`
 	Phases  []c20Phase `json:"phases"`
 	Strat   string     `json:"strategy"`
@@ -108,6 +109,11 @@ func c20Gen(tp *Tapes) *c20Spec {
 	}
 	sp.strat = pickStrategy(g)
 	sp.Strat = sp.strat.String()
+	if nSets > 1 && g.Draw(2) == 1 {
+		// both sets are handed the very same loader object (a common deployment)
+		sp.Shared = true
+		sp.Loaders[1] = sp.Loaders[0]
+	}
 	nPhases := 1 + g.Draw(3)
 	anyFault := false
 	// fault plan first (fault tape), so that heal events can be placed
@@ -398,8 +404,13 @@ func (c20Checker) Run(tp *Tapes, opt RunOpt) *Outcome {
 	rw := newRaceWatch()
 
 	sets := make([]*pongo2.TemplateSet, nSets)
+	sharedLoader := w.MakeLoader(0, LoaderSpec{Kind: sp.Loaders[0], Disk: 0})
 	for i := range sets {
-		sets[i] = pongo2.NewSet(fmt.Sprintf("S%d", i), w.MakeLoader(i, LoaderSpec{Kind: sp.Loaders[i], Disk: 0}))
+		l := sharedLoader
+		if !sp.Shared {
+			l = w.MakeLoader(i, LoaderSpec{Kind: sp.Loaders[i], Disk: 0})
+		}
+		sets[i] = pongo2.NewSet(fmt.Sprintf("S%d", i), l)
 		sets[i].Globals["setname"] = fmt.Sprintf("S%d", i)
 		// distinguishing configuration per set (isolation oracle): a ban and an option
 		if err := sets[i].BanTag([]string{"lorem", "templatetag"}[i%2]); err != nil {
@@ -740,7 +751,7 @@ func (c20Checker) Run(tp *Tapes, opt RunOpt) *Outcome {
 	ph := newHasher()
 	ph.str(fmt.Sprintf("%v", sp.Names))
 	ph.str(fmt.Sprintf("%+v", sp.Phases))
-	ph.str(fmt.Sprintf("%v%v", sp.Loaders, sp.HasInc))
+	ph.str(fmt.Sprintf("%v%v%v", sp.Loaders, sp.HasInc, sp.Shared))
 	out.ProgHash = uint64(ph)
 	th := hasher(out.TraceHash)
 	th.u64(out.ProgHash)
